@@ -87,9 +87,15 @@ func (rt *RoundTripper) cacheResponse(req *http.Request, resp *http.Response) {
 		return
 	}
 
+	// the freshness lifetime is already over: nothing to store
+	ttl := time.Until(expires)
+	if ttl <= 0 {
+		return
+	}
+
 	ctx := req.Context()
 	cch := cache.Ctx(ctx)
-	cch.Set(ctx, cacheKey(req), respDump, time.Until(expires)) //nolint:errcheck
+	cch.Set(ctx, cacheKey(req), respDump, ttl) //nolint:errcheck
 }
 
 func cacheKey(req *http.Request) string {
